@@ -179,7 +179,8 @@ def run(pid, tier, seed, scratch, t0):
     kept = []
     for o, f, r in failed:
         st = STACK_OF.get(r.get('base_unit'))
-        if st and o['fn'] == 'eval' and o['arm'] and f['kind'] == 'post' and kani_ok.get('%s::ast::eval/%s' % (st, o['arm'].split('/')[0])):
+        if st and o['fn'] == 'eval' and o['arm'] and f['kind'] == 'post' and kani_ok.get('%s::ast::eval/%s' % (st, o['arm'].split('/')[0])) \
+                and arm_frame_ok(r, o['arm'].split('/')[0]):
             undecided.append('obligation %s: Verus cannot prove the arm equal to the primitive the specification names, while the complete Kani harness of the same arm '
                              'proves it bit-exact over all operands: a reformulation the specification vocabulary cannot follow (not a violation)' % o['name'])
             continue
@@ -272,6 +273,39 @@ def run(pid, tier, seed, scratch, t0):
     print('OK property=%s tier=%s obligations=%d discharged=%d bounded=%d wall=%.1fs'
           % (pid, tier, len(owned), discharged, len(bounded), wall))
     return 0
+
+
+def arm_frame_ok(r, arm):
+    """The induction frame the per-constructor Kani harnesses rest on, checked on the text of the arm: every child bound by the arm's
+    pattern is used exactly once, as the argument of `eval(..)?`, and all these calls come before the first branching construct of the
+    arm - so each child is evaluated exactly once, unconditionally, and its error is propagated.  (A harness with leaf children cannot see
+    an arm that skips a child or swallows its error.)"""
+    try:
+        import verus_unit as vu
+        src = open(r['file'], encoding='utf-8').read().split('\n')
+        e = r['meta']['functions']['eval']
+        for a in e['arms']:
+            if vu.arm_label(a['pat']) != arm:
+                continue
+            region = '\n'.join(src[a['line_start'] - 1:a['line_end']])
+            head, _, body = region.partition('=>')
+            body = re.sub(r'^\s*return\b', '', body, count=1)          # the `return` rewrite T5 puts in front of every arm
+            binders = re.findall(r'[A-Za-z_][A-Za-z0-9_]*', head.split('(', 1)[1]) if '(' in head else []
+            if not binders:
+                return False
+            ctrl = re.search(r'\b(if|match|return|while|for|loop)\b', body)
+            first_ctrl = ctrl.start() if ctrl else len(body)
+            for b in binders:
+                occ = [m.start() for m in re.finditer(r'\b%s\b' % re.escape(b), body)]
+                if len(occ) != 1:
+                    return False
+                m = re.search(r'eval\(\s*\*?\s*%s\s*(,\s*steps\s*)?\)\s*\?' % re.escape(b), body)
+                if not m or m.start() > occ[0] or occ[0] > m.end() or m.start() > first_ctrl:
+                    return False
+            return True
+    except Exception:
+        return False
+    return False
 
 
 def run_tables_agree():
